@@ -1,6 +1,7 @@
 import GixModel.Lemmas.C11
 import GixModel.Lemmas.C56Toy
 import GixModel.Lemmas.C11Toy
+import GixModel.Lemmas.C11Stored
 /-
 C11 — Loose objects written by gitoxide are git objects and read back exactly.  PROPERTY THEOREMS ONLY.
 
@@ -203,5 +204,19 @@ theorem early_output_stored_worst_layout :
     tryHeader Stored.decompressor tinyBlocksFile = .ok 40 .blob ∧
     findInner Stored.decompressor tinyBlocksFile = .ok .blob (List.replicate 40 120) := by
   decide +kernel
+
+/-- `EarlyOutput` DERIVED for the stored-block decompressor the driver runs, for every zlib stream made of
+non-empty stored blocks (`Stored.IsStoredNE`: what `Stored.compress` writes — header, non-final stored blocks of
+1..65535 bytes, a final empty block, the Adler-32): any call on the first ≥ 192 bytes of such a stream that does
+not end it yields at least `min cap 28` content bytes (each block costs 5 header bytes and holds ≥ 1 content byte,
+so 190 stream bytes carry ≥ 31). (`DecompressorOk` is not proved for this codec, so `header_only_complete`
+is instantiated with the codec of Lemmas/C56Toy.lean only.) -/
+theorem early_output_stored : EarlyOutput Stored.decompressor Stored.IsStoredNE := Stored.earlyOutput
+
+-- non-vacuity: a stream of that shape (two one-byte blocks)
+example : Stored.IsStoredNE
+    ([0x78, 0x01] ++ (Stored.encBlocks [[7], [9]] ++ (Stored.blockHeader true 0 ++ Stored.adlerBytes (Stored.adler (1, 0) [7, 9]))))
+    [7, 9] :=
+  ⟨[[7], [9]], by intro b hb; simp at hb; rcases hb with h | h <;> subst h <;> simp, rfl, rfl⟩
 
 end GixModel.Props.C11
